@@ -32,11 +32,7 @@ MANIFEST = dict(
     ref="6/C07")
 
 HARNESS_LIBS = ("-lnghttp2", "-lpcre2-8", "-lz", "-lm", "-ldl")
-# UBSan's shift check is switched off inside this harness only: lshpack_dec_dec_int() shifts a
-# uint32 by 35 (6th continuation octet) and an int 8..15 by 28 (5-octet integers >= 2^31) before it
-# rejects / accepts the value -- pre-existing, value-wise harmless UB that belongs to C12 (reported);
-# left on it would abort the harness on such inputs and hide the functional comparison.
-HARNESS_EXTRA = ("-fno-sanitize=shift",)
+HARNESS_EXTRA = ()
 
 STATIC = [
     (b":authority", b""), (b":method", b"GET"), (b":method", b"POST"), (b":path", b"/"),
@@ -677,9 +673,8 @@ def gen_resp(ctx):
                         k = rand_case(rng, k)
                 else:
                     k, v = rand_case(rng, rng.choice(RESP_NAMES)), rand_resp_value(rng)
-                if k.lower() == b"x-lighttpd-kbytes-per-second":
-                    # (a negative number here is shifted left in http_response_omit_header(): UB, see report)
-                    v = rng.choice([b"100", b"0", b"", b"abc", b"7 "])
+                if k.lower() == b"x-lighttpd-kbytes-per-second" and rng.random() < 0.7:
+                    v = rng.choice([b"100", b"0", b"", b"abc", b"7 ", b"-85", b"99999999999999999999"])
                 ops.append("%s%s:%s" % (rng.choice("sssssiiiaa"), C.hx(k), C.hx(v)))
             st = rng.choice([200, 200, 200, 204, 206, 304, 304, 400, 404, 500, 301, 302, 403, 401, 416, 503, 100, 199, 599, 999])
             items.append("R%d/%d/%s" % (st, rng.random() < 0.5, ",".join(ops) if ops else "-"))
@@ -709,10 +704,7 @@ def run(ctx):
     ctx.rule = ("cases: exhaustive 1-2 octet integers / Huffman strings + random primitives; connection histories "
                 "(1..1000 blocks, served/discarded mixed, table size changes) from 3 independent encoders; every "
                 "single-bit corruption of short blocks; distinct = (op, outcome/error kind, blocks, table fill) tuples")
-    ctx.assumptions += ["nghttp2 (libnghttp2) is a conformant HPACK peer",
-                        "UBSan's shift check is disabled inside the harness (pre-existing shift UB in "
-                        "lshpack_dec_dec_int on over-long integers, reported separately); everything else runs "
-                        "under ASan+UBSan"]
+    ctx.assumptions += ["nghttp2 (libnghttp2) is a conformant HPACK peer"]
 
 
 def replay_line(ctx, rep):
